@@ -14,7 +14,7 @@ Which control forms mako admits (lexer ternary table + `PythonFragment` keyword 
 `if / elif* / else?`, `for / else?`, `while` (no `else`), `try / except+` (no `else`, **no `finally`**: the lexer
 accepts `% finally:` as a ternary of `try` but `PythonFragment` rejects the keyword), `with`.
 
-Three statements of the design are false of the code as they stand and appear as `_partial` + `_counterexample`:
+Four statements of the design are false of the code as they stand and appear as `_partial` + `_counterexample`:
 `printer_adequate` (a second `% except` clause is not unindented), `auto_pass_sufficient` (a suite holding only a
 `<%def>` or `<%! %>` gets no `pass`), `stop_rendering_keeps_output` (`return` inside a buffered or filtered def
 loses the content), and `fragment_headerOk` (`PythonFragment` strips / accepts more whitespace than `_re_indent`).
